@@ -158,7 +158,7 @@ class DictArray(StorageBase):
 
     def mask_linear(self) -> list[bool]:
         """Return a list of booleans indicating which elements are missing."""
-        return list(self.mask.data[:].flat)
+        return list(self.mask.data.flat)  # `.flat` also works for the 0-d mask of an array without mapped axes
 
     def dump(self, key: tuple[int | slice, ...], value: Any) -> None:
         """Dump 'value' into the location associated with 'key'.
